@@ -201,6 +201,21 @@ pub fn hand(b: &mut Builder) {
     );
     b.program("enum_unicode_lower", e);
 
+    // renames whose literal needs escape sequences (the key is the string the literal denotes)
+    let mut q = b.f("quoted");
+    q.rename = Some("quo\"te".to_string());
+    let mut bs = b.f("backslashed");
+    bs.rename = Some("back\\slash".to_string());
+    let mut tb = b.f("tabbed");
+    tb.rename = Some("tab\there".to_string());
+    let mut cm = b.f("custom_missing_renamed");
+    cm.rename = Some("caf\u{e9} cr\u{e8}me".to_string());
+    cm.missing_fn = Some(b.fid());
+    let fields = vec![q, bs, tb, cm, b.f("plain")];
+    let s = b.strukt("HEscapedRename", Some(RenameAll::Camel), Deny::Default, Validate::No, fields);
+    b.program("struct_escaped_rename", s.clone());
+    b.program("vec_struct_escaped_rename", Desc::Vec(bx(s)));
+
     // raw identifiers: the field `r#type` is read from the key "type"
     let mut dflt = b.f("r#loop");
     dflt.default = Dflt::Trait;
@@ -289,7 +304,7 @@ pub fn hand(b: &mut Builder) {
     b.program("struct_wide_deny", s);
     let id = b.fid();
     wide.reverse();
-    let s = b.strukt("HWideCustom", Some(RenameAll::Camel), Deny::Custom(id), Validate::No, wide);
+    let s = b.strukt("HWideCustom", Some(RenameAll::Camel), Deny::CustomUser(id), Validate::No, wide);
     b.program("struct_wide_deny_custom", s);
 
     // defaults, skip, missing_field_error, Option
@@ -304,6 +319,9 @@ pub fn hand(b: &mut Builder) {
     d4.default = Dflt::Expr(b.tok());
     let mut d5 = b.f("custom_missing");
     d5.missing_fn = Some(b.fid());
+    let mut d5u = b.f("custom_missing_user");
+    d5u.missing_fn = Some(b.fid());
+    d5u.missing_user = true;
     let mut d6 = b.f("default_and_custom_missing");
     d6.default = Dflt::Expr(b.tok());
     d6.missing_fn = Some(b.fid());
@@ -321,7 +339,7 @@ pub fn hand(b: &mut Builder) {
         None,
         Deny::No,
         Validate::No,
-        vec![d3, d1, req, d2, d4, d5, opt, optd, vecd, d6, d7],
+        vec![d3, d1, req, d2, d4, d5, d5u, opt, optd, vecd, d6, d7],
     );
     b.program("struct_defaults", s.clone());
     b.program("vec_struct_defaults", Desc::Vec(bx(s)));
@@ -428,6 +446,30 @@ pub fn hand(b: &mut Builder) {
     let e = b.add_type("HUnitLower", TypeKind::UnitEnum { rename_all: Some(RenameAll::Lower), validate: Validate::User(v), variants });
     b.program("enum_unit_lower_validate", e.clone());
     b.program("hashmap_enum_unit_lower", Desc::HashMap(KeyTy::Str, bx(e)));
+
+    // every accepted name lower-case (matching stays exact and case-sensitive), and identifiers
+    // with acronyms / digits under camelCase
+    let variants = vec![
+        VariantDef { ident: "Asc".into(), rename: None, rename_all: None, fields: None },
+        VariantDef { ident: "Desc".into(), rename: None, rename_all: None, fields: None },
+        VariantDef { ident: "RandomOrder".into(), rename: None, rename_all: None, fields: None },
+        VariantDef { ident: "Plain".into(), rename: Some("plain_2".into()), rename_all: None, fields: None },
+    ];
+    let e = b.add_type("HUnitAllLower", TypeKind::UnitEnum { rename_all: Some(RenameAll::Lower), validate: Validate::No, variants });
+    b.program("enum_unit_all_lower", e.clone());
+    b.program("vec_enum_unit_all_lower", Desc::Vec(bx(e)));
+    let variants = vec![
+        VariantDef { ident: "HTTPServer".into(), rename: None, rename_all: None, fields: None },
+        VariantDef { ident: "IOError".into(), rename: None, rename_all: None, fields: None },
+        VariantDef { ident: "Sha256Sum".into(), rename: None, rename_all: None, fields: None },
+        VariantDef { ident: "V2".into(), rename: None, rename_all: None, fields: None },
+    ];
+    let e = b.add_type("HUnitAcronym", TypeKind::UnitEnum { rename_all: Some(RenameAll::Camel), validate: Validate::No, variants });
+    b.program("enum_unit_acronym_camel", e.clone());
+    let fields = vec![b.f("line_2a"), b.f("x1y"), b.f("sha256sum"), b.f("ipv4_addr"), b.f("field_1"), FieldDef::plain("mode", e)];
+    let s = b.strukt("HDigitsCamel", Some(RenameAll::Camel), Deny::Default, Validate::No, fields);
+    b.program("struct_digits_camel", s.clone());
+    b.program("vec_struct_digits_camel", Desc::Vec(bx(s)));
 
     // a variant renamed to its own identifier is exempt from rename_all
     let variants = vec![
@@ -706,7 +748,9 @@ fn gen_fields(b: &mut Builder, rng: &mut Rng, rename_all: Option<RenameAll>, nam
         // a custom missing-field function, now and then also on a field that has a default
         // (the default wins: such a field is never missing)
         if (!f.has_default() && rng.chance(1, 6)) || (f.has_default() && !f.skip && rng.chance(1, 8)) {
-            f.missing_fn = Some(b.fid());
+            let id = b.fid();
+            f.missing_fn = Some(id);
+            f.missing_user = id % 2 == 1;
         }
         if !f.skip && rng.chance(1, 8) {
             f.error_b = true;
@@ -770,7 +814,8 @@ fn gen_validate(b: &mut Builder, rng: &mut Rng) -> Validate {
 fn gen_deny(b: &mut Builder, rng: &mut Rng) -> Deny {
     match rng.below(10) {
         0..=2 => Deny::Default,
-        3 | 4 => Deny::Custom(b.fid()),
+        3 => Deny::Custom(b.fid()),
+        4 => Deny::CustomUser(b.fid()),
         _ => Deny::No,
     }
 }
@@ -910,7 +955,11 @@ pub fn uniform(program_seed: u64, n: usize) -> Catalogue {
                         f.skip = true;
                         f.default = Dflt::Expr(b.tok());
                     }
-                    4 => f.missing_fn = Some(b.fid()),
+                    4 => {
+                        let id = b.fid();
+                        f.missing_fn = Some(id);
+                        f.missing_user = id % 2 == 1;
+                    }
                     5 if rng.chance(1, 2) => {
                         f.default = Dflt::Trait;
                         f.missing_fn = Some(b.fid());
